@@ -63,13 +63,18 @@ struct RedirectCout { std::string str() const { return "printed"; } };
 template <class T> std::string serialize(const T &) { return ""; }
 template <class T> void deserialize(const std::string &, T &) {}
 }
+namespace Tools { struct Index { VERIF_NESTED Index() {} Index(verif::Tag) {} }; }
+namespace POSEs { struct Frame { VERIF_NESTED Frame() {} Frame(verif::Tag) {} }; }
+namespace Values { struct Entry { VERIF_NESTED Entry() {} Entry(verif::Tag) {} }; }
+namespace Util { struct Id { VERIF_NESTED Id() {} Id(verif::Tag) {} }; }
 namespace lib {
 namespace geo { struct Shape { VERIF_NESTED Shape() {} Shape(verif::Tag) {} virtual ~Shape() {} }; }
 template <class T> struct Box { VERIF_NESTED Box() {} Box(verif::Tag) {} virtual ~Box() {} };
 template <class T> struct Seq { VERIF_NESTED Seq() {} Seq(verif::Tag) {} };
 }
 VERIF_TN(::Key, "Key") VERIF_TN(::Vector, "Vector") VERIF_TN(::gtsam::Pose3, "gtsam::Pose3") VERIF_TN(::gtsam::Point3, "gtsam::Point3")
-VERIF_TN(::lib::geo::Shape, "lib::geo::Shape")
+VERIF_TN(::lib::geo::Shape, "lib::geo::Shape") VERIF_TN(::Tools::Index, "Tools::Index") VERIF_TN(::POSEs::Frame, "POSEs::Frame")
+VERIF_TN(::Values::Entry, "Values::Entry") VERIF_TN(::Util::Id, "Util::Id")
 namespace verif {
 template <class T> struct TN< ::lib::Box<T> > { static std::string s() { return "lib::Box<" + TN<T>::s() + ">"; } };
 template <class T> struct TN< ::lib::Seq<T> > { static std::string s() { return "lib::Seq<" + TN<T>::s() + ">"; } };
